@@ -194,9 +194,11 @@ CLAIMED["C19"] = (
     "every input; Horner value on 11 exponent shapes; Polynomial -p, p**k, p*s, "
     "s*p, p+q, p-q, p*q, divmod homomorphic and normalised on 190 operand "
     "shapes (one base, field coefficients); coefficients survive a rewriting "
-    "mapper; exact-quotient node; ifft/sym_fft forward their options. Not "
-    "decided: that g is a *greatest* common divisor, lcm, the FFT's arithmetic, "
-    "polynomials over different bases or non-field coefficients.",
+    "mapper; exact-quotient node; g is a greatest common divisor (unimodular "
+    "rounds, loop ends with r == 0); lcm*gcd == +-q*r; fft / ifft / sym_fft "
+    "equal the DFT definition modulo w**n == 1 for every length up to 12 (32 "
+    "thorough), both signs. Not decided: polynomials over different bases or "
+    "non-field coefficients; floating-point error.",
     _NOTE, "DESIGN.md section 5, C19")
 
 CLAIMED["C16"] = (
